@@ -50,3 +50,4 @@ open Bpmn.Props.C12 Bpmn.Props.EngineCurrent
 #print axioms Bpmn.Props.C12Turns.return_frees_node
 #print axioms Bpmn.Props.C12Turns.nextTurn_mem
 #print axioms Bpmn.Props.C12Turns.nextTurn_node
+#print axioms Bpmn.Props.C12.current_activations_take_turns
